@@ -145,12 +145,14 @@ def gen_t2(sim, big=False, want_old=None):
         if t == "null":
             prefix.append(("null",))
         elif t == "lock":
-            nbits = sim.wpick("t2.lock.bits", [(3, 8), (2, 16), (2, 12), (1, 1), (1, 40), (1, 64), (1, 3)])
+            nbits = sim.wpick("t2.lock.bits", [(3, 8), (2, 16), (2, 12), (1, 1), (1, 40), (1, 64), (1, 3)] +
+                              ([(1, 256)] if data_area >= 496 else []))      # 256 is encoded as size byte 00h
             a, where = place("t2.lock", (nbits + 7) // 8)
             prefix.append(("lock", a, nbits))
             sim.probe("t2.reserved." + where)
         else:
-            size = sim.wpick("t2.mem.size", [(3, 1), (2, 2), (2, 4), (1, 7), (1, 8), (1, 16), (1, 33)])
+            size = sim.wpick("t2.mem.size", [(3, 1), (2, 2), (2, 4), (1, 7), (1, 8), (1, 16), (1, 33)] +
+                             ([(1, 256)] if data_area >= 872 else []))
             a, where = place("t2.mem", size)
             prefix.append(("mem", a, size))
             sim.probe("t2.reserved." + where)
@@ -229,7 +231,7 @@ class T1Case(TagCase):
 
 def gen_t1(sim, big=False, want_old=None, product_layout=False):
     kind = sim.wpick("t1.kind", [(3, "static-topaz"), (1, "static-generic"), (3, "dyn-512"),
-                                 (2, "dyn-256"), (1, "dyn-1024")] + ([(1, "dyn-2048")] if big else []))
+                                 (2, "dyn-256"), (1, "dyn-1024"), (1, "dyn-2048")] + ([(1, "dyn-2048")] if big else []))
     if kind.startswith("static"):
         size, hr = 120, (b"\x11\x48" if kind == "static-topaz" else b"\x11\x20")
     else:
@@ -293,12 +295,14 @@ def gen_t1(sim, big=False, want_old=None, product_layout=False):
         if t == "null":
             prefix.append(("null",))
         elif t == "lock":
-            nbits = sim.wpick("t1.lock.bits", [(3, 8), (2, 16), (2, 12), (1, 1), (1, 40), (1, 3)])
+            nbits = sim.wpick("t1.lock.bits", [(3, 8), (2, 16), (2, 12), (1, 1), (1, 40), (1, 3)] +
+                              ([(1, 256)] if size >= 512 else []))           # 256 is encoded as size byte 00h
             a, where = place("t1.lock", (nbits + 7) // 8)
             prefix.append(("lock", a, nbits))
             sim.probe("t1.reserved." + where)
         else:
-            sz = sim.wpick("t1.mem.size", [(3, 1), (2, 2), (2, 4), (1, 7), (1, 8), (1, 16)])
+            sz = sim.wpick("t1.mem.size", [(3, 1), (2, 2), (2, 4), (1, 7), (1, 8), (1, 16)] +
+                           ([(1, 256)] if size >= 1024 else []))
             a, where = place("t1.mem", sz)
             prefix.append(("mem", a, sz))
             sim.probe("t1.reserved." + where)
